@@ -52,8 +52,23 @@ def _frame(f, rmax, est_labels, ids, optional=True):
     return rows
 
 
+MODE = {"center": MatchingMode.CENTERDISTANCE, "plane": MatchingMode.PLANEDISTANCE, "iou2d": MatchingMode.IOU2D}
+_mode = ["center"]  # matching mode of the obligation being executed (set by pair_step)
+
+
+def _score(r):
+    """matching score of a result whose estimate is the ground-truth box (2 x 4 m, same heading) shifted by r.d along its
+    length: centre distance d; plane distance d (both nearest corners are shifted by d); BEV IoU = overlap / union"""
+    if _mode[0] != "iou2d":
+        return r.d
+    inter = L.If(r.d < 4, 2 * (4 - r.d), 0)
+    return inter / (16 - inter)
+
+
 def _own_tp(r, thr):
     # the evaluated label is car; ground truths are cars; label policy DEFAULT
+    if _mode[0] == "iou2d":
+        return L.And(r.has_gt, r.el == CAR, _score(r) > thr)
     return L.And(r.has_gt, r.el == CAR, r.d < thr)
 
 
@@ -80,9 +95,9 @@ def spec_pair(cur, prev, thr):
         tp = tp + L.If(is_tp, 1, 0)
         fp = fp + L.If(is_tp, 0, 1)
         sw = sw + L.If(L.And(L.Not(same), own, switched), 1, 0)
-        s = L.If(own, c.d, 0)
+        s = L.If(own, _score(c), 0)
         for t, p in same_terms:  # a continuing pair carries the previous frame's score (documented NOTE)
-            s = L.If(t, p.d, s)
+            s = L.If(t, _score(p), s)
         score = score + L.If(is_tp, s, 0)
     return tp, fp, sw, score
 
@@ -98,16 +113,24 @@ def _mota(tp, fp, sw, ngt):
     return L.If(v > 0, v, 0)
 
 
-def pair_step(rmax, ngt, est_labels, ids):
+def pair_step(rmax, ngt, est_labels, ids, mode="center"):
     """CLEAR on [previous, current] for arbitrary frames: accounting, switches, MOTA/MOTP formulas."""
-    thr = real("threshold", 0, 20, lo_strict=True)
+    _mode[0] = mode
+    try:
+        return _pair_step(rmax, ngt, est_labels, ids, mode)
+    finally:
+        _mode[0] = "center"
+
+
+def _pair_step(rmax, ngt, est_labels, ids, mode):
+    thr = real("threshold", 0, 1) if mode == "iou2d" else real("threshold", 0, 20, lo_strict=True)
     labels = [CAR, BUS] if est_labels == "two" else [CAR]
     prev = _frame(0, rmax, labels, ids)
     cur = _frame(1, rmax, labels, ids)
     history = [[r.res for r in prev], [r.res for r in cur]]
     before = [list(fr) for fr in history]
-    cl = CLEAR(history, ngt, [CAR], MatchingMode.CENTERDISTANCE, [thr])
-    cl_again = CLEAR(history, ngt, [CAR], MatchingMode.CENTERDISTANCE, [thr])  # the same history scored twice
+    cl = CLEAR(history, ngt, [CAR], MODE[mode], [thr])
+    cl_again = CLEAR(history, ngt, [CAR], MODE[mode], [thr])  # the same history scored twice
     tp, fp, sw, score = spec_pair(cur, prev, thr)
     parts = {
         "every_result_tp_or_fp": L.close(cl.tp + cl.fp, _considered(cur), 0),
@@ -125,7 +148,7 @@ def pair_step(rmax, ngt, est_labels, ids):
     parts["mota_formula"] = L.close(cl.mota, _mota(tp, fp, sw, ngt), 1e-9)
     if symx.is_sym(cl.tp) or cl.tp != 0:
         parts["motp_is_mean_tp_score"] = L.close(cl.motp * cl.tp, score, 1e-9)
-        scores = [r.d for r in prev + cur]
+        scores = [_score(r) for r in prev + cur if r.has_gt]
         parts["motp_within_score_range"] = L.And(cl.motp >= L.Min(*scores) - 1e-9, cl.motp <= L.Max(*scores) + 1e-9)
     else:
         parts["motp_undefined_without_tp"] = cl.motp == float("inf")
@@ -267,6 +290,9 @@ def obligations(pid, tier):
                             pair.append(dict(base, _presets={"f0r0_present": a, "f0r1_present": b, "f1r0_present": c}))
             else:
                 pair.append(base)
+    pair += [dict(rmax=1, ngt=n, est_labels="two", ids=2, mode=m) for m in ("plane", "iou2d") for n in (0, 2)]
+    if not quick:
+        pair += [dict(rmax=2, ngt=3, est_labels="one", ids=2, mode=m) for m in ("plane", "iou2d")]
     acc = [dict(frames=3, rmax=1, ngt=2), dict(frames=4, rmax=1, ngt=0), dict(frames=3, rmax=2, ngt=4, optional=False)] \
         if quick else [dict(frames=3, rmax=2, ngt=4), dict(frames=4, rmax=1, ngt=3), dict(frames=5, rmax=1, ngt=0),
                        dict(frames=4, rmax=2, ngt=5, optional=False)]
@@ -307,11 +333,11 @@ def meta(pid):
                   "evaluation/metrics/tracking/_metrics_base.py", "evaluation/result/object_result.py"],
         "bounds": {"quick": "pair step: <= 2 results per frame (each optional), estimate label {car,bus}, ground truth "
                             "present or not, symbolic integer ids (alphabet of 3), symbolic scores and threshold, "
-                            "ground-truth count {0,1,3}; accumulator: 3 frames x <= 2 results; renaming: <= 2 per frame; "
+                            "ground-truth count {0,1,3}, centre distance (plane distance and BEV IoU: 1 result per frame); accumulator: 3 frames x <= 2 results; renaming: <= 2 per frame; "
                             "scenarios: 2..4 frames x 1..3 targets",
                    "thorough": "pair step <= 3 results per frame; accumulator 4 frames; scenarios up to 6 frames x 4 targets"},
         "outside": ["more results per frame than the bound", "long random histories (the quantifier's random part)",
-                    "matching modes other than centre distance (scores are C06's subject)", "tp metrics other than AP"],
+                    "IoU3D mode and rotated boxes (scores are C06's subject)", "tp metrics other than AP"],
         "stand_ins": ["lazy matching wrappers", "numpy proxy"],
         "assumptions": ["within a frame estimate ids are distinct per label and ground-truth ids are distinct (documented "
                         "input contract)", "a pair continuing a previous-frame TP carries the previous frame's score "
